@@ -199,6 +199,28 @@ pub struct Lang {
     pub trivia: Vec<(u16, u16)>,
 }
 
+/// `lang` line of one case: the codes of IntLiteral / Dot / DotDot / Eof and, for every token kind
+/// that occurs in the case (plus the trivia kinds), its `SyntaxKind::from` image and `is_trivia`.
+fn lang_line(lang: &Lang, toks: &[Token]) -> String {
+    let mut tbl: Vec<(u16, u16, u8)> = lang.trivia.iter().map(|(t, k)| (*t, *k, 1)).collect();
+    for t in toks {
+        let e = (
+            t.kind as u16,
+            trust_syntax::syntax::SyntaxKind::from(t.kind) as u16,
+            t.kind.is_trivia() as u8,
+        );
+        if !tbl.contains(&e) {
+            tbl.push(e);
+        }
+    }
+    tbl.sort();
+    let mut s = format!("lang {} {} {} {} {}", lang.int, lang.dot, lang.dotdot, lang.eof, tbl.len());
+    for (t, k, v) in tbl {
+        let _ = write!(s, " {t} {k} {v}");
+    }
+    s
+}
+
 impl Lang {
     /// Read the kind codes off the real enums; the trivia kinds are discovered by lexing a probe
     /// that contains one token of each trivia class.
@@ -224,13 +246,6 @@ impl Lang {
     fn is_trivia(&self, k: u16) -> bool {
         self.trivia.iter().any(|(t, _)| *t == k)
     }
-    fn line(&self) -> String {
-        let mut s = format!("lang {} {} {} {} {}", self.int, self.dot, self.dotdot, self.eof, self.trivia.len());
-        for (t, k) in &self.trivia {
-            let _ = write!(s, " {t} {k}");
-        }
-        s
-    }
 }
 
 fn event_word(e: &Event) -> String {
@@ -245,7 +260,7 @@ fn event_word(e: &Event) -> String {
 }
 
 /// The premises of `c12_sink_lossless_events`, evaluated by the harness independently of the model.
-fn premises(lang: &Lang, src: &str, toks: &[(u16, usize, usize)], events: &[Event]) -> [bool; 5] {
+fn premises(lang: &Lang, src: &str, toks: &[(u16, usize, usize)], skinds: &[u16], events: &[Event]) -> [bool; 6] {
     // E1: the raw event list is one bracket: first event a Start, depth >= 1 strictly inside,
     //     depth 0 exactly at the end.
     let mut e1 = matches!(events.first(), Some(Event::Start { .. }));
@@ -280,13 +295,19 @@ fn premises(lang: &Lang, src: &str, toks: &[(u16, usize, usize)], events: &[Even
         }
         c
     };
+    // E4: every Token event carries the SyntaxKind of the token(s) it makes the sink consume
+    //     (`skinds[i]` = `SyntaxKind::from(tokens[i].kind)`).
+    let mut e4 = true;
     let mut cur = 0usize;
     for e in events {
         match e {
-            Event::Token { n_tokens, .. } => {
+            Event::Token { n_tokens, kind } => {
                 cur = eat(cur);
                 for _ in 0..*n_tokens {
                     if cur < toks.len() {
+                        if skinds.get(cur).copied() != Some(*kind as u16) {
+                            e4 = false;
+                        }
                         cur += 1;
                     }
                 }
@@ -298,7 +319,7 @@ fn premises(lang: &Lang, src: &str, toks: &[(u16, usize, usize)], events: &[Even
     // no token of kind Eof; every token boundary is a character boundary and the tokens tile the text
     let noeof = toks.iter().all(|t| t.0 != lang.eof);
     let bounds = toks.iter().all(|t| src.is_char_boundary(t.1) && src.is_char_boundary(t.2)) && tiles(toks, src.len());
-    [e1, e2, cur == toks.len(), noeof, bounds]
+    [e1, e2, cur == toks.len(), noeof, bounds, e4]
 }
 
 struct ParseObs {
@@ -391,13 +412,16 @@ pub fn run_case(n: u64, input: &CaseInput, lang: &Lang, out: &mut Out, dump: boo
     out.line(format!("# class {} {}", input.class, input.note));
     out.count(&format!("class_{}", input.class));
     out.add("bytes", src.len() as u64);
-    out.line(lang.line());
-    out.line(format!("src {}", hex(src.as_bytes())));
-
     // ---- lexer ----
     let raw = catch_unwind(AssertUnwindSafe(|| raw_lex(src))).ok();
-    let toks: Option<Vec<(u16, usize, usize)>> =
-        catch_unwind(AssertUnwindSafe(|| lex(src).iter().map(tok3).collect())).ok();
+    let ltoks: Option<Vec<Token>> = catch_unwind(AssertUnwindSafe(|| lex(src))).ok();
+    let toks: Option<Vec<(u16, usize, usize)>> = ltoks.as_ref().map(|l| l.iter().map(tok3).collect());
+    let skinds: Vec<u16> = ltoks
+        .as_ref()
+        .map(|l| l.iter().map(|t| trust_syntax::syntax::SyntaxKind::from(t.kind) as u16).collect())
+        .unwrap_or_default();
+    out.line(lang_line(lang, ltoks.as_deref().unwrap_or(&[])));
+    out.line(format!("src {}", hex(src.as_bytes())));
     let model_ops = toks.as_ref().map(|t| t.len() <= MAX_MODEL_TOKENS).unwrap_or(true);
     if !model_ops {
         out.line("# model operations skipped (more than MAX_MODEL_TOKENS tokens); oracle only");
@@ -506,7 +530,7 @@ pub fn run_case(n: u64, input: &CaseInput, lang: &Lang, out: &mut Out, dump: boo
         if model_ops {
             out.line("sink");
         }
-        let prem = premises(lang, src, toks, events);
+        let prem = premises(lang, src, toks, &skinds, events);
         let prem_s: String = prem.iter().map(|b| if *b { '1' } else { '0' }).collect();
         match &p1 {
             Some(p) => {
@@ -535,7 +559,7 @@ pub fn run_case(n: u64, input: &CaseInput, lang: &Lang, out: &mut Out, dump: boo
             }
         }
         if prem.iter().any(|b| !*b) {
-            fails.push(format!("premise-monitor balanced,fp,consumed,noeof,boundaries={prem_s}"));
+            fails.push(format!("premise-monitor balanced,fp,consumed,noeof,boundaries,kinds={prem_s}"));
         }
     } else if hook.is_none() {
         out.line("# parser (event hook) panicked");
@@ -1737,7 +1761,7 @@ pub fn gen_case(seed: u64, n: u64, ctx: &Ctx) -> CaseInput {
 fn crashed_case(n: u64, input: &CaseInput, lang: &Lang, out: &mut Out, why: &str) {
     out.line(format!("case {n}"));
     out.line(format!("# class {} {}", input.class, input.note));
-    out.line(lang.line());
+    out.line(lang_line(lang, &[]));
     out.line(format!("src {}", hex(input.text.as_bytes())));
     out.line(format!("# oracle FAIL {why}"));
     out.count("oracle_failures");
